@@ -69,7 +69,7 @@ theorem C05_failure_survives_clean_stop
     rw [p0] at a; rw [p1] at b
     rw [a] at b; exact (Option.some.inj b).symm
   have hc' : isCons t' = true := by unfold isCons at hcons ⊢; rw [hprog]; exact hcons
-  obtain ⟨x, hx, hne⟩ := (endOK_reachable h1 t' (List.mem_of_getElem? ht')).2 hdone hc'
+  obtain ⟨x, hx, hne⟩ := (obsEndOK_reachable h1 t' (List.mem_of_getElem? ht')).2 hdone hc'
   cases x with
   | empty => exact absurd rfl hne
   | err e => exact ⟨e, hx⟩
